@@ -23,6 +23,7 @@ RULE = ('negative half: the well-formed documents of the annotated generator (se
         '\\LTinput of a missing or undecodable file}; optionally an \\LTinput of an empty / comment-only file in front, also with the fault within the last 14 characters of the text; oracle: exact line/column in the diagnostic, complete mark, mark mapped to the fault offset, '
         'all later words present in order with exact positions, mark iff diagnostic. '
         'non-trivial = positive case whose fault is not at offset 0 and that has at least one word behind the faulty construct; distinct by source text')
+RULE += ' Additions: an open mandatory / optional argument for every macro and environment of the catalogue (all packages loaded).'
 ASSUMPTIONS = docprop.ASSUMPTIONS + [
     'faults are placed at the top level of the main flow; open maths faults are the last maths delimiter of their paragraph (otherwise a later $ closes them and LaTeX itself sees a different error)',
     'the rest behind an open [ contains no ] ; the rest behind an open verbatim / skip region contains no further verbatim / skip region (they would close the fault)',
